@@ -5,7 +5,7 @@ from __future__ import annotations
 import numpy as np
 
 
-def coherent_rows(t, like, u, x, logl, blobs, where, need_u=True):
+def coherent_rows(t, like, u, x, logl, blobs, where, need_u=True, recompute=False):
     """Returns list of (key, what).  u may be None (posterior() does not return u)."""
     bad = []
     x = np.asarray(x)
@@ -30,6 +30,10 @@ def coherent_rows(t, like, u, x, logl, blobs, where, need_u=True):
     for j in range(n):
         k = np.ascontiguousarray(x[j]).tobytes()
         ll = like.by_x.get(k)
+        if ll is None and recompute:
+            # evaluations that happened in worker processes are not in this process's log: the likelihood is a pure
+            # function, so the value it returns at that x is recomputed
+            ll = float(like._ll(np.asarray(x[j], dtype=float)))
         if ll is None:
             miss += 1
             continue
